@@ -32,6 +32,7 @@ from . import maildir as MD        # the maildir half: UID list discipline of ap
 from . import mdio as IO           # ... and the lock discipline of UidList.with_write that MD's model relies on
 from . import session as SES, selected as SELM     # reporting: what AppendUid / CopyUid are built from
 from harness.e2e_uids import bounded_uids, bounded_uidvalidity
+from harness.e2e_race import bounded_race
 
 _ms_mod = ['self._highest', 'self._uids', 'self._updates', 'self._expunges', 'self._mod_seqs_order', 'self.g_pos']
 weak_update = Contract('C04', F, '_ModSequenceMapping.update', params=dict(self=ModSeq, uids=ListS(INT)),
@@ -289,7 +290,14 @@ def _bounded():
                 'INBOX renamed away 3000 times (thorough 20000) and a mailbox deleted and created again 3000 times on the dict '
                 'backend, 250 (2500) times on each maildir layout, one APPEND into every generation: no two generations of a '
                 'name may answer the same [APPENDUID v u] (16 random bits per second make a repeat likely within a few hundred '
-                'generations unless the implementation prevents it)', bounded_uidvalidity('C04'), decisive=False)]
+                'generations unless the implementation prevents it)', bounded_uidvalidity('C04'), decisive=False),
+        Bounded('STRESS (not exhaustive): concurrent sessions in real threads on the maildir backend',
+                'the threading subsystem as `pymap ... maildir` sets it up; one session APPENDs 50 (thorough 300) messages to INBOX '
+                'while a second repeats STATUS INBOX (get_mailbox -> reset) and, in half of the runs, a third repeats CHECK '
+                '(cleanup); both layouts, 1 (thorough 6) repetitions each; afterwards every message must be present exactly once '
+                'under the uid its APPENDUID announced (an APPEND answered NO [TIMEOUT] must have left nothing).  Finds a race '
+                'with some probability only; the deductive obligations "a file appears / the directory is listed only while the '
+                'UID list is locked" of contracts/maildir.py are what excludes it', bounded_race('C04'), decisive=False)]
 
 
 PROPERTY = Property(
